@@ -345,7 +345,7 @@ pub fn run(ctx: &Ctx, mode: Mode) -> Shard {
     // ---- 5c. directed: exact sizes (every value length around page multiples) and free-list lengths around a full page
     let mut i = 0usize;
     while let Some(h) = shape::exact_fit_history(if deep && i % 2 == 1 { 4096 } else { ps }, i) {
-        if (i as u64 + 3) % ctx.nshards == ctx.shard && mode != Mode::C07 && (deep || i < 4) {
+        if (i as u64 + 3) % ctx.nshards == ctx.shard && mode != Mode::C07 && (deep || i < 5) {
             let path = scratch.fresh("e");
             let out = exec::run_history(&h, &cfg, &path);
             let _ = std::fs::remove_file(&path);
